@@ -56,6 +56,10 @@ type w3Cfg struct {
 	PresDelayPm int  `json:"pres_delay_pm,omitempty"` // presence round trip (PresenceManager / presence map channel) is slow
 	TickMs      int  `json:"tick_ms,omitempty"`       // ClientPresenceUpdateInterval (0 = 1 s)
 	QueueMax    int  `json:"queue_max,omitempty"`     // ClientQueueMaxSize (0 = default)
+	// mixed scenarios (C04 / C37, see zz_verif_w3_mix_test.go): a loading map subscription meets
+	// stream subscribes and server-side subscribes on the same connection
+	Mix       bool `json:"mix,omitempty"`
+	ChanLimit int  `json:"chan_limit,omitempty"` // ClientChannelLimit (0 = library default)
 }
 
 type w3WOp struct {
@@ -88,6 +92,10 @@ type w3COp struct {
 	When   int    `json:"when,omitempty"`
 	KillAt int    `json:"kill_at,omitempty"`
 	KillUs int    `json:"kill_us,omitempty"`
+	// mixed scenarios: ops mreq | mfin | ssub | sunsub | srv (see zz_verif_w3_mix_test.go)
+	Ch     string `json:"ch,omitempty"`     // channel of ssub / sunsub / srv
+	Act    string `json:"act,omitempty"`    // srv: nsub | csub | nunsub | cunsub
+	Inline bool   `json:"inline,omitempty"` // srv: performed by the client's own task (sequential) instead of a racing task
 }
 
 type w3Client struct {
@@ -242,6 +250,7 @@ type w3World struct {
 	changes int                             // number of changes handed over so far
 	rmBusy  int                             // explicit removes in flight (to tell TTL removals apart)
 	life    w3Life                          // connection registry, broker subscription record, gauges (C05 / C26)
+	mix     w3MixW                          // mixed scenarios (C04 / C37)
 }
 
 // w3Broker is the real MemoryMapBroker; only the event handler it calls is wrapped.
@@ -341,6 +350,7 @@ func (w *w3World) setup() error {
 		ClientChannelPositionCheckDelay: time.Second,
 		UseSingleFlight:                 cfg.SingleFlight,
 		ClientQueueMaxSize:              cfg.QueueMax,
+		ClientChannelLimit:              cfg.ChanLimit,
 		Metrics:                         MetricsConfig{RegistererGatherer: w.life.reg},
 		Map: MapConfig{
 			GetMapChannelOptions: func(ch string) MapChannelOptions { return w.chanOpts(ch) },
@@ -368,6 +378,11 @@ func (w *w3World) setup() error {
 	node.OnConnect(func(c *Client) {
 		cl := c.Transport().(*w3Transport).cl
 		c.OnSubscribe(func(e SubscribeEvent, cb SubscribeCallback) {
+			if cfg.Mix && e.Type == SubscriptionTypeStream {
+				// mixed scenarios: an ordinary stream subscription (default MemoryBroker)
+				cb(SubscribeReply{}, nil)
+				return
+			}
 			opts := SubscribeOptions{Type: SubscriptionTypeMap, AllowTagsFilter: true, ServerTagsFilter: w3ServerFilter(cl.curSF)}
 			if cfg.UseDelta {
 				opts.AllowedDeltaTypes = []DeltaType{DeltaTypeFossil}
@@ -547,6 +562,7 @@ type w3Cl struct {
 	curPath       string
 	unexpected    int
 	conn          *w3Conn // lifecycle: registry entry of the current connection
+	mx            w3MixC  // mixed scenarios: map flow cursor, received publications, subscription ledger
 }
 
 func (w *w3World) newClient(idx int, spec w3Client) *w3Cl {
@@ -648,6 +664,10 @@ func (cl *w3Cl) onData(data []byte) {
 	switch {
 	case rep.Push != nil:
 		p := rep.Push
+		if cl.w.sc.Cfg.Mix {
+			cl.mixPush(p)
+			return
+		}
 		switch {
 		case p.Pub != nil:
 			s.Event("c%d push pub key=%s rm=%v off=%d delta=%v", cl.idx, p.Pub.Key, p.Pub.Removed, p.Pub.Offset, p.Pub.Delta)
@@ -1225,6 +1245,10 @@ func (cl *w3Cl) runOp(op w3COp) {
 		cl.drop()
 	case "refresh":
 		cl.refresh(op)
+	default:
+		if cl.w.sc.Cfg.Mix {
+			cl.mixOp(op)
+		}
 	}
 }
 
@@ -1281,6 +1305,10 @@ func w3Run(s *simrt.Sim, script any, prop string) {
 	}
 	if sc.Cfg.Life {
 		w.lifeEnd(settle)
+		return
+	}
+	if sc.Cfg.Mix {
+		w.mixEnd(settle)
 		return
 	}
 	s.Sleep(settle + 137*time.Millisecond)
@@ -1580,6 +1608,9 @@ func w3Gen(c *simrt.Choice, prop, tier string) any {
 	if prop == "C05" || prop == "C26" {
 		return w3GenLife(c, prop, tier)
 	}
+	if prop == "C04" || prop == "C37" {
+		return w3GenMix(c, prop, tier)
+	}
 	sc := &w3Script{}
 	cfg := &sc.Cfg
 	cfg.Mode = []int{2, 3, 1}[c.Pick(5, 3, 2)]
@@ -1770,6 +1801,7 @@ func w3Shrinks(script any) []any {
 		out = append(out, c)
 	}
 	out = append(out, w3LifeShrinks(sc, clone)...)
+	out = append(out, w3MixShrinks(sc, clone)...)
 	if len(sc.Clients) > 1 {
 		for i := range sc.Clients {
 			c := clone()
@@ -1864,6 +1896,10 @@ func init() {
 				// a closed connection was examined that had been ended while it held a map
 				// subscription or a reservation of one
 				return r.Probes["nontrivial:C05"] > 0
+			case "C04", "C37":
+				// a settled connection was judged in a run in which a server-side subscribe (C04) /
+				// a client-side subscribe at the limit (C37) met a map subscription that was still loading
+				return r.Probes["nontrivial:"+prop] > 0
 			case "C26":
 				// broker subscription compared with local interest after the node both
 				// subscribed to and unsubscribed from the channel in the map broker
@@ -1877,4 +1913,6 @@ func init() {
 	simrt.Claim("C14", "w3", 10)
 	simrt.Claim("C05", "w3", 4)
 	simrt.Claim("C26", "w3", 4)
+	simrt.Claim("C04", "w3", 3)
+	simrt.Claim("C37", "w3", 3)
 }
